@@ -100,6 +100,8 @@ type Exec struct {
 	Visited func(key string) bool
 	Pruned  bool
 	LastKey string
+	// NewStates counts the global states this execution visited first
+	NewStates int
 }
 
 var theExec Exec
@@ -247,7 +249,9 @@ func (x *Exec) yield(t *Thread) {
 		if x.Visited != nil && x.np >= len(x.prefix) {
 			k := x.stateKey()
 			x.LastKey = k
+			x.NewStates++
 			if x.Visited(k) {
+				x.NewStates--
 				x.Pruned = true
 				x.finishPruned()
 				x.park(t)
@@ -352,6 +356,19 @@ func (x *Exec) exit(t *Thread) {
 		return
 	}
 	for {
+		// stateful exploration: the end of a thread is a scheduling point like any other (who runs
+		// next is a choice), so the global state is looked up here too
+		if x.Visited != nil && x.np >= len(x.prefix) {
+			k := x.stateKey()
+			x.LastKey = k
+			x.NewStates++
+			if x.Visited(k) {
+				x.NewStates--
+				x.Pruned = true
+				x.finishPruned()
+				return
+			}
+		}
 		next := x.pick()
 		if next < 0 {
 			if x.fireNextTimer() {
@@ -649,7 +666,7 @@ func Run(prefix []int, horizon int, quick bool, body func()) *Exec {
 	x.prefix, x.Horizon, x.QuickMode = prefix, horizon, quick
 	x.done = make(chan struct{}, 1)
 	x.objSeq, x.stamp = 0, 0
-	x.Pruned, x.LastKey = false, ""
+	x.Pruned, x.LastKey, x.NewStates = false, "", 0
 	x.KeyFn, x.Visited = pendingKeyFn, pendingVisited
 	X = x
 	t := &x.threads[0]
@@ -737,4 +754,38 @@ func LiveThreads() int {
 		}
 	}
 	return n
+}
+
+//go:norace
+func (x *Exec) PrefixLen() int { return len(x.prefix) }
+
+// liveAtMost is the predicate of WaitLiveAtMost.
+type liveAtMost struct {
+	x *Exec
+	n int
+}
+
+//go:norace
+func (w *liveAtMost) Ready() bool {
+	live := 0
+	for i := 0; i < w.x.nthr; i++ {
+		if w.x.threads[i].status == 1 {
+			live++
+		}
+	}
+	return live <= w.n
+}
+
+// WaitLiveAtMost parks the caller until at most n threads (itself included) are live: a fairness
+// bound for stateful explorations, e.g. "no more than one fired timer callback is still waiting to
+// run when the driver goes on" keeps the number of lingering callback threads, and with it the state
+// space, finite.
+//
+//go:norace
+func WaitLiveAtMost(n int) {
+	x := X
+	if x == nil || x.aborting {
+		return
+	}
+	Wait("WaitLiveAtMost", &liveAtMost{x, n})
 }
